@@ -20,6 +20,7 @@
 package security
 
 import (
+	"bytes"
 	"context"
 	"crypto/ecdh"
 	"crypto/ecdsa"
@@ -840,6 +841,11 @@ func sessionIsClientSide(entry *SessionEntry) bool {
 	return false
 }
 
+// sameSessionKey reports whether two cached keys are the same non-empty key.
+func sameSessionKey(a, b *KeyInfo) bool {
+	return a != nil && b != nil && len(a.Data) > 0 && bytes.Equal(a.Data, b.Data)
+}
+
 // sessionHasUsableKey reports whether a cached session carries a key that
 // resumption can install on the stream: an AES-256-GCM key of the size
 // Stream.SetSymmetricKey accepts.
@@ -1478,6 +1484,13 @@ func (a *Authenticator) storeClientSession(negotiation *SecurityNegotiation, dur
 	// the same key, so the client side rides it too instead of replacing it.
 	if existing, ok := cache.Lookup(negotiation.SessionId); !ok || sessionIsClientSide(existing) {
 		cache.Store(entry)
+	} else if !sameSessionKey(existing.KeyInfo(), keyInfo) {
+		// Some other record holds this id (e.g. an imported claim session whose id the
+		// server chose to announce): it is the server-side record of THIS session only if
+		// it carries the very key just negotiated. Leave an unrelated record alone and
+		// cache nothing -- filing this handshake's commands under its id would route
+		// {tag,addr,<cmd>} lookups to a session established with another peer.
+		return
 	}
 
 	// Map commands to this session (using sinful string as key)
